@@ -285,4 +285,20 @@ def NestRow.ok (r : NestRow) : Bool :=
   decide (0 ≤ r.scol) && decide (r.ohi - 1 + r.scol ≤ r.colc) && decide (r.ihi - 1 + r.scol ≤ r.colc) &&
   decide (r.jmax0 + r.scol ≤ r.colc + 1 - r.ihi)
 
+/-! no entry of a two-level record is written twice -/
+def NEv.wr? : NEv → Option (Int × Int)
+  | .write ro co => some (ro, co)
+  | .brk _ _ => none
+
+def OEv.wr? : OEv → Option (Int × Int)
+  | .write row co => some (row, co)
+  | _ => none
+
+/-- exactly one write in the inner body, at a row offset above every (constant) row the outer body writes to, and the outer body's
+writes go to pairwise different rows: then no two writes of a run hit the same entry -/
+def NestRow.distinct (r : NestRow) : Bool :=
+  match r.ibody.filterMap NEv.wr?, r.tail with
+  | [(ro, _)], some tl => ((tl.filterMap OEv.wr?).map (·.1)).Nodup && (tl.filterMap OEv.wr?).all (fun e => decide (e.1 < ro))
+  | _, _ => false
+
 end PbVerif.LoopTbl
